@@ -57,6 +57,7 @@ func init() {
 		Title:       "Containment and winding queries agree with the path's winding number",
 		Explanation: "Decides: in RayIntersections the per-segment pre-filter hull is a pure Min/Max tree over start, end and every decoded control point (arc: centre∓max(rx,ry)), so no segment the ray can cross is skipped; Contains returns fillRule.Fills(n) for n from Windings(x, y); Windings/Crossings visit every element of Split(); Fills agrees with the rule definitions. Since batch 11 also: over all paths of the hit loops of windings and Crossings, a counted hit is non-tangent or a vertex whose sides agree, an end-point hit is always remembered or compared, overlapping hits have no effect; no direction is taken from a cubic derivative that can be zero. NOT decided: the intersection arithmetic of the primitives, CCW's index logic, Filling's nesting logic.",
 		Run: func(c *core.Ctx, r *core.Report) {
+			E11ReversedFrame(c, r)
 			E3RayImplicitClose(c, r)
 			E3RayHull(c, r)
 			E3EllipseParamAngle(c, r)
@@ -116,6 +117,7 @@ func init() {
 		Assumptions: []string{"cursor variables are non-negative (initialised to 0 and only incremented)", "strconv.ParseFloat (tdewolff/parse) returns 0 <= n <= len(b)", "third-party dependencies are trusted not to panic"},
 		Run: func(c *core.Ctx, r *core.Report) {
 			E11RelativeBeforeUse(c, r)
+			E11ImplicitCommand(c, r)
 			E4ParserGuards(c, r)
 			E4ParserProgress(c, r)
 			E11SVGSmooth(c, r)
@@ -178,6 +180,9 @@ func init() {
 			E11ConstIndexInLoop(c, r)
 			E6DashPeriod(c, r)
 			E6JoinerSupport(c, r)
+			E6ColorModelCompare(c, r)
+			E6OutlineNonzero(c, r)
+			E5StitchingArity(c, r)
 			E6MemoIndependent(c, r)
 			E6MemoSharedState(c, r)
 			E6OperatorThroughSetter(c, r)
@@ -265,9 +270,10 @@ func init() {
 func init() {
 	register("C03", &Property{
 		Title:       "Flattening approximates every curve within the requested tolerance",
-		Explanation: "Decides the 'made only of straight segments' clause for every input and tolerance: by command-set typing over the whole package, Flatten's result can contain only MoveTo/LineTo/Close (plus such commands inherited from the receiver) and ReplaceArcs' result no ArcTo; the replace driver has the validated splice shape (each kind calls its own non-nil replacer, the record is cut before the replacement is joined, the cursor restarts at the re-attached remainder, so every remaining command passes through the switch); the consumers that rely on it (ToPDF/Tile arc panics, stride-4 scanner loops, the sweep's non-flat panic) only see such paths. NOT decided: the error bound, vertex order, same end points, termination as the tolerance goes to 0, X-monotonicity.",
+		Explanation: "Decides the 'made only of straight segments' clause for every input and tolerance: by command-set typing over the whole package, Flatten's result can contain only MoveTo/LineTo/Close (plus such commands inherited from the receiver) and ReplaceArcs' result no ArcTo; the replace driver has the validated splice shape (each kind calls its own non-nil replacer, the record is cut before the replacement is joined, the cursor restarts at the re-attached remainder, so every remaining command passes through the switch); the consumers that rely on it (ToPDF/Tile arc panics, stride-4 scanner loops, the sweep's non-flat panic) only see such paths. Of XMonotone one clause: the second root of a cubic is re-mapped onto the remainder exactly when the curve was cut at the first (E11.remap-iff-split). NOT decided: the error bound, vertex order, same end points, termination as the tolerance goes to 0, X-monotonicity in general.",
 		Run: func(c *core.Ctx, r *core.Report) {
 			E10Flatness(c, r)
+			E11RemapIffSplit(c, r)
 			E2PenReread(c, r)
 			E4StepProgress(c, r)
 			E3ArcAngleFrame(c, r)
@@ -280,6 +286,7 @@ func init() {
 		Title:       "Stroke and Offset realise exact distance offsets of the path",
 		Explanation: "Decides one clause only, 'closed subpaths are joined, not capped' (and its dual: open sub-paths are capped iff stroking): in (*Path).offset the closed flag is set exactly by a Close command, every Capper call is control-dependent on !closed && strokeOpen and placed at the two ends, the Joiner wraps around from the last to the first segment when closed, the closed branch closes both offset curves, and Stroke/Offset pass strokeOpen true/false; plus the angle-unit consistency of the arc rotation passed to ArcTo (E8, whole package). NOT decided: every distance clause (w/2 neighbourhood, miter limit, inner-bend repair, offset direction).",
 		Run: func(c *core.Ctx, r *core.Report) {
+			E11SignedMagnitude(c, r)
 			E11JunctionPairing(c, r)
 			E4RadiiNonzero(c, r)
 			E11SubpathLoops(c, r)
@@ -291,6 +298,7 @@ func init() {
 		Title:       "Dashing cuts the path by arc length according to the pattern",
 		Explanation: "Decides two structural clauses: (1) 'independently for every subpath': in Dash the only variable carried across iterations of the sub-path loop is the output accumulator and every iteration restarts from (i0, pos0); (2) pieces cut by SplitAt are made relative to the previous cut in every curve case (E11.cut-carried), read the sub-path's own data (E2 cursor domain) and keep the arc rotation in consistent units (E8). NOT decided: every arithmetic clause (phase, period, offsets, arc-length inversion, piece order, joining of closed sub-paths, degenerate patterns). Argument mutation by Dash is decided under C10/C15.",
 		Run: func(c *core.Ctx, r *core.Report) {
+			E11CutInterval(c, r)
 			E11DashPairTogether(c, r)
 			E11DashPeriod(c, r)
 			E11DashOffsetRange(c, r)
@@ -327,6 +335,7 @@ func init() {
 		Run: func(c *core.Ctx, r *core.Report) {
 			E11SVGVocabulary(c, r)
 			E11WordListMatch(c, r)
+			E11SelectorHash(c, r)
 			E11SVGCascade(c, r)
 			E11SVGTransformSeparator(c, r)
 			E11SVGColorGrammar(c, r)
